@@ -38,6 +38,16 @@ pub trait Model: Encode + Decode + Clone + PartialEq + std::fmt::Debug {
     fn roundtrip() -> bool {
         true
     }
+    /// a few LARGE values (encodings beyond 64 KiB): offsets that need more than two bytes, long chunked
+    /// inputs. Empty for types that have none
+    fn big_values(_g: &mut Rng) -> Vec<Self> {
+        Vec::new()
+    }
+    /// can the Lean model evaluate this type's large values in reasonable time? (only byte strings: the
+    /// model appends list items one by one, which is quadratic for tens of thousands of items)
+    fn big_model_ok() -> bool {
+        false
+    }
     /// for union-like types (derived unions, Option): the number of declared variants
     fn union_variants() -> Option<usize> {
         None
@@ -200,6 +210,12 @@ impl Model for Bloom {
 }
 
 impl Model for Bytes {
+    fn big_model_ok() -> bool {
+        true
+    }
+    fn big_values(g: &mut Rng) -> Vec<Self> {
+        vec![Bytes::from(g.bytes(65536)), Bytes::from(g.bytes(70001))]
+    }
     fn desc() -> String {
         "XL".into()
     }
@@ -221,6 +237,15 @@ fn gen_len(g: &mut Rng, size: usize) -> usize {
 }
 
 impl<T: Model> Model for Vec<T> {
+    fn big_values(g: &mut Rng) -> Vec<Self> {
+        let fl = <T as Encode>::ssz_fixed_len();
+        if <T as Encode>::is_ssz_fixed_len() && fl >= 1 && fl <= 64 {
+            // just past 64 KiB and just past 128 KiB of encoded items
+            [65536 / fl + 3, 131072 / fl + 1].iter().map(|n| (0..*n).map(|_| T::gen(g, 0)).collect()).collect()
+        } else {
+            Vec::new()
+        }
+    }
     fn alloc_coeff() -> usize {
         std::mem::size_of::<Self>() + T::alloc_coeff()
     }
@@ -243,6 +268,15 @@ impl<T: Model> Model for Vec<T> {
 }
 
 impl<T: Model, const N: usize> Model for SmallVec<[T; N]> {
+    fn big_values(g: &mut Rng) -> Vec<Self> {
+        let fl = <T as Encode>::ssz_fixed_len();
+        if <T as Encode>::is_ssz_fixed_len() && fl >= 1 && fl <= 64 {
+            // just past 64 KiB and just past 128 KiB of encoded items
+            [65536 / fl + 3, 131072 / fl + 1].iter().map(|n| (0..*n).map(|_| T::gen(g, 0)).collect()).collect()
+        } else {
+            Vec::new()
+        }
+    }
     fn alloc_coeff() -> usize {
         std::mem::size_of::<Self>() + T::alloc_coeff()
     }
@@ -265,6 +299,15 @@ impl<T: Model, const N: usize> Model for SmallVec<[T; N]> {
 }
 
 impl<T: Model + Ord> Model for BTreeSet<T> {
+    fn big_values(g: &mut Rng) -> Vec<Self> {
+        let fl = <T as Encode>::ssz_fixed_len();
+        if <T as Encode>::is_ssz_fixed_len() && fl >= 1 && fl <= 64 {
+            // just past 64 KiB and just past 128 KiB of encoded items
+            [65536 / fl + 3, 131072 / fl + 1].iter().map(|n| (0..*n).map(|_| T::gen(g, 0)).collect()).collect()
+        } else {
+            Vec::new()
+        }
+    }
     fn collection_oracle(b: &[u8]) -> Option<bool> {
         let plain = <Vec<T> as Decode>::from_ssz_bytes(b);
         let got = <Self as Decode>::from_ssz_bytes(b);
@@ -296,6 +339,14 @@ impl<T: Model + Ord> Model for BTreeSet<T> {
 }
 
 impl<K: Model + Ord, V: Model> Model for BTreeMap<K, V> {
+    fn big_values(g: &mut Rng) -> Vec<Self> {
+        let fl = <(K, V) as Encode>::ssz_fixed_len();
+        if <(K, V) as Encode>::is_ssz_fixed_len() && fl >= 1 && fl <= 64 {
+            vec![(0..65536 / fl + 3).map(|_| (K::gen(g, 0), V::gen(g, 0))).collect()]
+        } else {
+            Vec::new()
+        }
+    }
     fn collection_oracle(b: &[u8]) -> Option<bool> {
         let plain = <Vec<(K, V)> as Decode>::from_ssz_bytes(b);
         let got = <Self as Decode>::from_ssz_bytes(b);
@@ -344,6 +395,12 @@ impl<K: Model + Ord, V: Model> Model for BTreeMap<K, V> {
 impl<T: Model> Model for Option<T> {
     fn union_variants() -> Option<usize> {
         Some(2)
+    }
+    fn big_model_ok() -> bool {
+        T::big_model_ok()
+    }
+    fn big_values(g: &mut Rng) -> Vec<Self> {
+        T::big_values(g).into_iter().take(1).map(Some).collect()
     }
     fn alloc_coeff() -> usize {
         std::mem::size_of::<Self>() + T::alloc_coeff()
@@ -396,6 +453,17 @@ impl<T: Model> Model for Arc<T> {
 macro_rules! impl_tuple {
     ($(($idx:tt) -> $T:ident),+) => {
         impl<$($T: Model),+> Model for ($($T,)+) {
+            fn big_model_ok() -> bool {
+                true $(&& (<$T as Model>::big_model_ok() || <$T as Model>::big_values(&mut Rng::new(1)).is_empty()))+
+            }
+            fn big_values(g: &mut Rng) -> Vec<Self> {
+                // every component that has large values carries one at the same time
+                if false $(|| !<$T as Model>::big_values(&mut g.clone()).is_empty())+ {
+                    vec![($($crate::model::big_or_gen::<$T>(g),)+)]
+                } else {
+                    Vec::new()
+                }
+            }
             fn alloc_coeff() -> usize {
                 std::mem::size_of::<Self>() $(+ $T::alloc_coeff())+
             }
@@ -428,6 +496,15 @@ impl_tuple!((0) -> A, (1) -> B, (2) -> C, (3) -> D, (4) -> E, (5) -> F, (6) -> G
 impl_tuple!((0) -> A, (1) -> B, (2) -> C, (3) -> D, (4) -> E, (5) -> F, (6) -> G, (7) -> H, (8) -> I, (9) -> J);
 impl_tuple!((0) -> A, (1) -> B, (2) -> C, (3) -> D, (4) -> E, (5) -> F, (6) -> G, (7) -> H, (8) -> I, (9) -> J, (10) -> K);
 impl_tuple!((0) -> A, (1) -> B, (2) -> C, (3) -> D, (4) -> E, (5) -> F, (6) -> G, (7) -> H, (8) -> I, (9) -> J, (10) -> K, (11) -> L);
+
+pub fn big_or_gen<T: Model>(g: &mut Rng) -> T {
+    let mut b = T::big_values(g);
+    if b.is_empty() {
+        T::gen(g, 1)
+    } else {
+        b.swap_remove(0)
+    }
+}
 
 pub fn bits_str<I: Iterator<Item = bool>>(it: I) -> String {
     let mut s = String::from("b");
@@ -516,6 +593,17 @@ macro_rules! container {
             }
             fn alloc_coeff() -> usize {
                 std::mem::size_of::<Self>() $(+ <$t as $crate::model::Model>::alloc_coeff())*
+            }
+            fn big_model_ok() -> bool {
+                true $(&& (<$t as $crate::model::Model>::big_model_ok() || <$t as $crate::model::Model>::big_values(&mut $crate::rng::Rng::new(1)).is_empty()))*
+            }
+            #[allow(unused_variables)]
+            fn big_values(g: &mut $crate::rng::Rng) -> Vec<Self> {
+                if false $(|| !<$t as $crate::model::Model>::big_values(&mut g.clone()).is_empty())* {
+                    vec![$name { $($f: $crate::model::big_or_gen::<$t>(g)),* }]
+                } else {
+                    Vec::new()
+                }
             }
             fn strict() -> bool {
                 true $(&& <$t as $crate::model::Model>::strict())*
